@@ -237,11 +237,12 @@ def run(spec, tier, seed, repo_root):
         exhaustively_enumerated=spec.get("exhaustively_enumerated", []),
         checker_cmd=f"./check {prop} --tier {tier}",
         trusted_base=spec["trusted"],
-        entries_compared=sum(r["entries"] for r in results),
+        entries_compared=sum(r["entries"] for r in results),     # matrix entries covered (sparse comparisons count the entries that are zero on both sides)
         cases_by_status={k: len(v) for k, v in by.items()},
         shim_ops_exercised=ops,
         negative_controls=ctrl,
         shim_selftest=selftest,
+        shim_ops_not_covered_by_selftest=(sorted(set(ops) - set(selftest.get("ops_covered", []))) if selftest else None),
         repo_root=repo_root,
         driver_wall_s=res.get("wall_s"),
         unsupported_ops=sorted({r.get("op", "") for r in unsupported}),
